@@ -619,18 +619,425 @@ def split_tuple_assigns(func: ast.FunctionDef) -> None:
     func.body = walk(func.body)
 
 
+# ------------------------------------------------------------ canonical form
+_NEG = {ast.Eq: ast.NotEq, ast.NotEq: ast.Eq, ast.In: ast.NotIn,
+        ast.NotIn: ast.In, ast.Is: ast.IsNot, ast.IsNot: ast.Is}
+
+
+class _Canon(ast.NodeTransformer):
+    """Spelling-level canonical form (all rewrites are equivalences):
+    constants on the right of == / !=; ``not a == b`` -> ``a != b`` (also in,
+    is); ``if not c: B else: A`` -> ``if c: A else: B`` (statements and
+    conditional expressions); ``if a: (if b: X)`` without else branches ->
+    ``if a and b: X``."""
+
+    def __init__(self):
+        self.changed = False
+
+    def visit_Compare(self, node):
+        self.generic_visit(node)
+        if len(node.ops) == 1 and isinstance(node.ops[0], (ast.Eq, ast.NotEq)):
+            l, r = node.left, node.comparators[0]
+            if _is_const(l) and not _is_const(r):
+                node.left, node.comparators[0] = r, l
+                self.changed = True
+        return node
+
+    def visit_UnaryOp(self, node):
+        self.generic_visit(node)
+        if isinstance(node.op, ast.Not) and isinstance(
+                node.operand, ast.Compare) and len(node.operand.ops) == 1 and \
+                type(node.operand.ops[0]) in _NEG:
+            c = node.operand
+            c.ops = [_NEG[type(c.ops[0])]()]
+            self.changed = True
+            return c
+        return node
+
+    def visit_If(self, node):
+        self.generic_visit(node)
+        if isinstance(node.test, ast.UnaryOp) and isinstance(
+                node.test.op, ast.Not) and node.orelse:
+            node.test = node.test.operand
+            node.body, node.orelse = node.orelse, node.body
+            self.changed = True
+        elif node.orelse and isinstance(node.test, ast.Compare) and len(
+                node.test.ops) == 1 and isinstance(
+                node.test.ops[0], (ast.NotEq, ast.NotIn, ast.IsNot)):
+            # two-armed test on a negative comparison: positive form first
+            node.test.ops = [_NEG[type(node.test.ops[0])]()]
+            node.body, node.orelse = node.orelse, node.body
+            self.changed = True
+        # if c: x = A else: x = B   ->   x = A if c else B
+        if len(node.body) == 1 and len(node.orelse) == 1 and all(
+                isinstance(b, ast.Assign) and len(b.targets) == 1
+                and isinstance(b.targets[0], ast.Name)
+                for b in (node.body[0], node.orelse[0])) and \
+                node.body[0].targets[0].id == node.orelse[0].targets[0].id:
+            self.changed = True
+            return ast.copy_location(ast.Assign(
+                targets=[node.body[0].targets[0]],
+                value=ast.copy_location(ast.IfExp(
+                    node.test, node.body[0].value, node.orelse[0].value),
+                    node)), node)
+        if not node.orelse and len(node.body) == 1 and isinstance(
+                node.body[0], ast.If) and not node.body[0].orelse:
+            inner = node.body[0]
+            vals = []
+            for t in (node.test, inner.test):
+                if isinstance(t, ast.BoolOp) and isinstance(t.op, ast.And):
+                    vals += t.values
+                else:
+                    vals.append(t)
+            node.test = ast.copy_location(ast.BoolOp(ast.And(), vals),
+                                          node.test)
+            node.body = inner.body
+            self.changed = True
+        return node
+
+    def visit_IfExp(self, node):
+        self.generic_visit(node)
+        if isinstance(node.test, ast.UnaryOp) and isinstance(
+                node.test.op, ast.Not):
+            node.test = node.test.operand
+            node.body, node.orelse = node.orelse, node.body
+            self.changed = True
+        elif isinstance(node.test, ast.Compare) and len(
+                node.test.ops) == 1 and isinstance(
+                node.test.ops[0], (ast.NotEq, ast.NotIn, ast.IsNot)):
+            node.test.ops = [_NEG[type(node.test.ops[0])]()]
+            node.body, node.orelse = node.orelse, node.body
+            self.changed = True
+        return node
+
+
+def _is_const(e) -> bool:
+    if isinstance(e, ast.Constant):
+        return True
+    if isinstance(e, ast.Tuple):
+        return all(_is_const(x) for x in e.elts)
+    return isinstance(e, ast.UnaryOp) and isinstance(
+        e.op, (ast.USub, ast.UAdd)) and isinstance(e.operand, ast.Constant)
+
+
+def inline_return_temps(func: ast.FunctionDef) -> bool:
+    """``t = expr`` immediately followed by ``return t`` where t has no other
+    occurrence in the function -> ``return expr`` (in place)."""
+    counts: dict[str, int] = {}
+    for n in ast.walk(func):
+        if isinstance(n, ast.Name):
+            counts[n.id] = counts.get(n.id, 0) + 1
+    # number of adjacent `t = e; return t` pairs per name
+    pairs: dict[str, int] = {}
+
+    def count_pairs(stmts):
+        for i, st in enumerate(stmts):
+            for f in ("body", "orelse", "finalbody"):
+                sub = getattr(st, f, None)
+                if isinstance(sub, list) and sub and isinstance(
+                        sub[0], ast.stmt):
+                    count_pairs(sub)
+            for h in getattr(st, "handlers", []) or []:
+                count_pairs(h.body)
+            nxt = stmts[i + 1] if i + 1 < len(stmts) else None
+            if isinstance(st, ast.Assign) and len(st.targets) == 1 and \
+                    isinstance(st.targets[0], ast.Name) and isinstance(
+                    nxt, ast.Return) and isinstance(nxt.value, ast.Name) and \
+                    nxt.value.id == st.targets[0].id and not any(
+                    isinstance(x, ast.Name) and x.id == st.targets[0].id
+                    for x in ast.walk(st.value)):
+                pairs[st.targets[0].id] = pairs.get(st.targets[0].id, 0) + 1
+
+    count_pairs(func.body)
+    changed = False
+
+    def walk(stmts):
+        nonlocal changed
+        out = []
+        i = 0
+        while i < len(stmts):
+            st = stmts[i]
+            for f in ("body", "orelse", "finalbody"):
+                sub = getattr(st, f, None)
+                if isinstance(sub, list) and sub and isinstance(
+                        sub[0], ast.stmt):
+                    setattr(st, f, walk(sub))
+            for h in getattr(st, "handlers", []) or []:
+                h.body = walk(h.body)
+            nxt = stmts[i + 1] if i + 1 < len(stmts) else None
+            if isinstance(st, ast.Assign) and len(st.targets) == 1 and \
+                    isinstance(st.targets[0], ast.Name) and isinstance(
+                    nxt, ast.Return) and isinstance(nxt.value, ast.Name) and \
+                    nxt.value.id == st.targets[0].id and counts.get(
+                    st.targets[0].id) == 2 * pairs.get(st.targets[0].id, 0):
+                out.append(ast.copy_location(ast.Return(st.value), st))
+                changed = True
+                i += 2
+                continue
+            out.append(st)
+            i += 1
+        return out
+
+    func.body = walk(func.body)
+    return changed
+
+
+def _store_counts(func) -> dict[str, int]:
+    out: dict[str, int] = {}
+    for n in ast.walk(func):
+        if isinstance(n, ast.Name) and isinstance(n.ctx, (ast.Store, ast.Del)):
+            out[n.id] = out.get(n.id, 0) + 1
+        elif isinstance(n, ast.arg):
+            out[n.arg] = out.get(n.arg, 0) + 1
+        elif isinstance(n, (ast.Global, ast.Nonlocal)):
+            for x in n.names:
+                out[x] = out.get(x, 0) + 2
+    return out
+
+
+def _drop_and_subst(func, table: dict[str, ast.AST], drop: set[int]) -> None:
+    """Removes the assignment statements whose id() is in drop and replaces
+    loads of the names in table by clones of their expressions."""
+
+    def walk(stmts):
+        out = []
+        for st in stmts:
+            if id(st) in drop:
+                continue
+            for f in ("body", "orelse", "finalbody"):
+                sub = getattr(st, f, None)
+                if isinstance(sub, list) and sub and isinstance(
+                        sub[0], ast.stmt):
+                    setattr(st, f, walk(sub) or ([ast.Pass()]
+                                                 if f == "body" else []))
+            for h in getattr(st, "handlers", []) or []:
+                h.body = walk(h.body) or [ast.Pass()]
+            out.append(st)
+        return out
+
+    func.body = walk(func.body) or [ast.Pass()]
+
+    class T(ast.NodeTransformer):
+        def visit_Name(self, node):
+            if node.id in table and isinstance(node.ctx, ast.Load):
+                return ast.copy_location(clone(table[node.id]), node)
+            return node
+
+    T().visit(func)
+
+
+def propagate_constants(func: ast.FunctionDef) -> bool:
+    """A local bound exactly once, to a literal constant (or tuple of them),
+    is replaced by the literal."""
+    stores = _store_counts(func)
+    table, drop = {}, set()
+    for n in ast.walk(func):
+        if isinstance(n, ast.Assign) and len(n.targets) == 1 and isinstance(
+                n.targets[0], ast.Name) and stores.get(
+                n.targets[0].id) == 1 and _is_const(n.value) and not (
+                isinstance(n.value, ast.Constant) and n.value.value is None):
+            table[n.targets[0].id] = n.value
+            drop.add(id(n))
+    if not table:
+        return False
+    _drop_and_subst(func, table, drop)
+    return True
+
+
+def propagate_function_aliases(func: ast.FunctionDef,
+                               module_funcs: set[str]) -> bool:
+    """``f = _module_function`` (bound once) -> calls of f name the function."""
+    stores = _store_counts(func)
+    table, drop = {}, set()
+    for n in ast.walk(func):
+        if isinstance(n, ast.Assign) and len(n.targets) == 1 and isinstance(
+                n.targets[0], ast.Name) and stores.get(
+                n.targets[0].id) == 1 and isinstance(n.value, ast.Name) and \
+                n.value.id in module_funcs and stores.get(n.value.id, 0) == 0:
+            table[n.targets[0].id] = n.value
+            drop.add(id(n))
+    if not table:
+        return False
+    _drop_and_subst(func, table, drop)
+    return True
+
+
+def eliminate_slot_aliases(func: ast.FunctionDef, selfname: str | None,
+                           slots: set[str], rebound: set[str]) -> bool:
+    """``x = self._slot`` (x bound once, the slot not re-bound by this
+    function or anything it calls on self) -> uses of x read self._slot."""
+    if not selfname:
+        return False
+    stores = _store_counts(func)
+    table, drop = {}, set()
+    for n in ast.walk(func):
+        if isinstance(n, ast.Assign) and len(n.targets) == 1 and isinstance(
+                n.targets[0], ast.Name) and stores.get(
+                n.targets[0].id) == 1 and isinstance(
+                n.value, ast.Attribute) and isinstance(
+                n.value.value, ast.Name) and n.value.value.id == selfname \
+                and n.value.attr in slots and n.value.attr not in rebound:
+            table[n.targets[0].id] = n.value
+            drop.add(id(n))
+    if not table:
+        return False
+    _drop_and_subst(func, table, drop)
+    return True
+
+
+def _simple_context(value: ast.AST, name: str) -> bool:
+    """name occurs exactly once in value, reached only through unary
+    operators and calls f(name, <names/constants>...) whose callee is a plain
+    name / attribute chain: substituting an expression for it keeps the order
+    of evaluation of everything with a side effect."""
+    if isinstance(value, ast.Name):
+        return value.id == name
+    if isinstance(value, ast.UnaryOp):
+        return _simple_context(value.operand, name)
+    if isinstance(value, ast.Call) and value.args and dotted(value.func) and \
+            not any(isinstance(a, ast.Starred) for a in value.args):
+        rest = list(value.args[1:]) + [k.value for k in value.keywords]
+        if all(isinstance(a, (ast.Name, ast.Constant)) and not (
+                isinstance(a, ast.Name) and a.id == name) for a in rest):
+            return _simple_context(value.args[0], name)
+    return False
+
+
+def inline_single_use_temps(func: ast.FunctionDef) -> bool:
+    """``t = e`` directly followed by ``return f(t)`` / ``x = f(t)`` where t
+    occurs nowhere else -> the expression is used in place."""
+    counts: dict[str, int] = {}
+    for n in ast.walk(func):
+        if isinstance(n, ast.Name):
+            counts[n.id] = counts.get(n.id, 0) + 1
+    changed = False
+
+    def walk(stmts):
+        nonlocal changed
+        out = []
+        i = 0
+        while i < len(stmts):
+            st = stmts[i]
+            for f in ("body", "orelse", "finalbody"):
+                sub = getattr(st, f, None)
+                if isinstance(sub, list) and sub and isinstance(
+                        sub[0], ast.stmt):
+                    setattr(st, f, walk(sub))
+            for h in getattr(st, "handlers", []) or []:
+                h.body = walk(h.body)
+            nxt = stmts[i + 1] if i + 1 < len(stmts) else None
+            if isinstance(st, ast.Assign) and len(st.targets) == 1 and \
+                    isinstance(st.targets[0], ast.Name) and counts.get(
+                    st.targets[0].id) == 2 and isinstance(
+                    nxt, (ast.Return, ast.Assign)) and nxt.value is not None \
+                    and not isinstance(nxt.value, ast.Name) and \
+                    _simple_context(nxt.value, st.targets[0].id) and (
+                    isinstance(nxt, ast.Return) or (
+                        len(nxt.targets) == 1 and isinstance(
+                            nxt.targets[0], ast.Name))):
+                name = st.targets[0].id
+                value = st.value
+
+                class T(ast.NodeTransformer):
+                    def visit_Name(self, node):
+                        if node.id == name and isinstance(node.ctx, ast.Load):
+                            return value
+                        return node
+
+                T().visit(nxt)
+                changed = True
+                i += 1
+                continue
+            out.append(st)
+            i += 1
+        return out
+
+    func.body = walk(func.body)
+    return changed
+
+
+def canonicalise(func: ast.FunctionDef, selfname: str | None = None,
+                 slots: set[str] = frozenset(),
+                 rebound: set[str] = frozenset(),
+                 module_funcs: set[str] = frozenset(),
+                 ) -> tuple[ast.FunctionDef, bool]:
+    new = clone(func)
+    c = _Canon()
+    new = c.visit(new)
+    ch = c.changed
+    ch |= propagate_constants(new)
+    ch |= propagate_function_aliases(new, module_funcs)
+    ch |= eliminate_slot_aliases(new, selfname, slots, rebound)
+    ch |= inline_return_temps(new)
+    ch |= inline_single_use_temps(new)
+    if ch:
+        ast.fix_missing_locations(new)
+        set_parents(new)
+    return new, ch
+
+
+def _rebinders(prog) -> dict[str, set[str]]:
+    """method name -> attributes of self that a method of that name (in any
+    class) re-binds, directly or through the self/super calls it makes."""
+    direct: dict[str, set[str]] = {}
+    calls: dict[str, set[str]] = {}
+    for fi in prog.functions.values():
+        if fi.cls is None or not fi.params():
+            continue
+        me = fi.params()[0]
+        d = direct.setdefault(fi.name, set())
+        c = calls.setdefault(fi.name, set())
+        for n in ast.walk(fi.node):
+            if isinstance(n, ast.Attribute) and isinstance(
+                    n.ctx, (ast.Store, ast.Del)) and isinstance(
+                    n.value, ast.Name) and n.value.id == me:
+                d.add(n.attr)
+            elif isinstance(n, ast.Call) and isinstance(n.func, ast.Attribute):
+                v = n.func.value
+                if (isinstance(v, ast.Name) and v.id == me) or (
+                        isinstance(v, ast.Call) and isinstance(
+                        v.func, ast.Name) and v.func.id == "super"):
+                    c.add(n.func.attr)
+            # setattr(self, name, ...) / object.__setattr__: anything
+            if isinstance(n, ast.Call) and dotted(n.func) in (
+                    "setattr", "object.__setattr__"):
+                d.add("*")
+    closed = {k: set(v) for k, v in direct.items()}
+    for _ in range(len(closed)):
+        changed = False
+        for name, cs in calls.items():
+            for c in cs:
+                extra = closed.get(c, set()) - closed[name]
+                if extra:
+                    closed[name] |= extra
+                    changed = True
+        if not changed:
+            break
+    return closed
+
+
+def _rebound_slots(prog, fi, rebinders) -> set[str]:
+    out = set(rebinders.get(fi.name, set()))
+    if "*" in out:
+        return {"*"} | set(prog.all_slots(fi.cls.name))
+    return out
+
+
 # ------------------------------------------------------------------- driver
 def normalise_program(prog, *, inline: bool = True,
-                      unroll_loops: bool = False) -> dict:
+                      unroll_loops: bool = False,
+                      canonical: bool = True) -> dict:
     """Rewrites prog.functions / class method tables / module trees in place.
     Returns a report for the evidence files."""
     keep = baseline()
     inl = Inliner(prog, keep)
-    report = {"inlined": [], "unrolled": [], "new_functions": []}
+    report = {"inlined": [], "unrolled": [], "new_functions": [],
+              "canonicalised": []}
     quals = list(prog.functions)
     report["new_functions"] = sorted(q for q in quals if q not in keep)
     # inline bottom-up enough: MAX_ROUNDS rounds per function cover nesting
     replacements: dict[str, ast.FunctionDef] = {}
+    rebinders = _rebinders(prog) if canonical else {}
     for q in quals:
         fi = prog.functions[q]
         node = fi.node
@@ -642,6 +1049,22 @@ def normalise_program(prog, *, inline: bool = True,
             if ch:
                 node = u
                 report["unrolled"].append(q)
+        if canonical:
+            selfname, slots, rebound = None, set(), set()
+            if fi.cls is not None and not fi.is_staticmethod() and \
+                    not fi.is_classmethod() and fi.params():
+                selfname = fi.params()[0]
+                try:
+                    slots = set(prog.all_slots(fi.cls.name))
+                except Exception:
+                    slots = set()
+                rebound = _rebound_slots(prog, fi, rebinders)
+            mfuncs = {f.name for f in prog.functions.values()
+                      if f.module is fi.module and f.cls is None}
+            u, ch = canonicalise(node, selfname, slots, rebound, mfuncs)
+            if ch:
+                node = u
+                report["canonicalised"].append(q)
         if node is not fi.node:
             replacements[q] = node
     for q, node in replacements.items():
